@@ -127,7 +127,9 @@ void harness(void)
 #if V_ACTION != 5
 	COVER(verif_msgproc_calls == 2);
 #endif
+#if V_ACTION != 5
 	COVER(verif_msgproc_calls == 1 && verif_watch_freed == 1);
+#endif
 	COVER(verif_msgproc_calls == 1 && verif_watch_freed == 0);
 #else
 	ASSUME(nd_state >= QB_IPCS_CONNECTION_ACTIVE && nd_state <= QB_IPCS_CONNECTION_SHUTTING_DOWN);
